@@ -7,10 +7,10 @@ BOUNDED = ("Bounded symbolic model checking of the real code: the solver's UNSAT
 CHECKS = {
  "C01": dict(engine="kani", technique="Kani/CBMC bounded model checking of every operator function per operand-tag tuple (symbolic payloads), overflow/panic checks + range oracles",
    text=BOUNDED + "Every strict operator function is executed by CBMC on every payload of every supported operand-tag tuple with Kani's panic, arithmetic-overflow, cast and bounds checks on; cast cells assert that an Ok result equals the operand's mathematical value. chrono cells run chrono's real code; Decimal + - * / % are decided in the quick tier by recorders (a non-panicking checked_* entry point of rust_decimal is used; replayed natively on Decimal::MAX/MIN/0) and in the thorough tier on rust_decimal's real code at scale 0.",
-   note="Trusted: Kani/CBMC model of MIR, CaDiCaL. One operator application per harness; composite expressions, context.rs, function.rs, and string/list/map operands with contents are outside. Decimal operands at scales > 0 run only through the recorders.", ref="3/C01"),
+   note="Trusted: Kani/CBMC model of MIR, CaDiCaL. One operator application per harness. String operands with contents: casts on every 1-2 byte ASCII string and on concrete multi-byte samples, case mapping / trim on concrete samples only. Composite expressions, context.rs, function.rs, list/map operands with contents are outside. Decimal operands at scales > 0 run only through the recorders.", ref="3/C01"),
  "C02": dict(engine="kani", technique="Kani/CBMC differential harness per operator-table cell against a reference table (symbolic payloads); recorder stubs for rust_decimal/chrono operations",
    text=BOUNDED + "One harness per supported cell of the operator table asserts the exact result (value or error class) for every payload; dependency arithmetic is abstracted by recorders (which operation, which operands, which order, pass-through) and additionally run on the real rust_decimal code at scale 0 (thorough); each binary strict arm of the dispatcher is executed on a verbatim copy of its right-hand side (arm slices): its function receives the sub-results in field order and its result is returned.",
-   note="Trusted: rust_decimal / chrono arithmetic itself; CBMC float model (Float / and % only by identities). Int * / % exact-value cells are width-staged (32/16-bit operands quick, 64/32 thorough). The `match` dispatch of eval_rec (pattern -> arm) is read from the source; and/or, list, map, call arms are not executed.", ref="3/C02"),
+   note="Trusted: rust_decimal / chrono arithmetic itself; CBMC float model (Float / and % only by identities). Int * / % exact-value cells are width-staged (32/16-bit operands quick, 64/32 thorough). `Value == Value` is decided directly on PartialEq for every scalar tag pair (IEEE equality for floats). String operands with contents only as listed under C01. The `match` dispatch of eval_rec (pattern -> arm) is read from the source; and/or, list, map, call arms are not executed.", ref="3/C02"),
  "C03": dict(engine="kani", technique="Kani/CBMC harness per (operator, ordered non-None tag pair) outside the supported set: result must be Err(InvalidType) for all payloads",
    text=BOUNDED + "Every unsupported ordered pair of non-None operand tags of every strict operator (all Int/Float/Decimal mixes included) yields Err(InvalidType) for every payload.",
    note="Equality of different types is decided on the real equality helper with the eval_rec oracle (str \"1\" / dec / int / float pairs). and/or are out of CBMC's reach (only if's condition and bool::try_from are decided, under C05/C17); quick runs all numeric mixes + all unary + a seed-rotated quarter of the rest.", ref="3/C03"),
